@@ -436,22 +436,12 @@ func (s *Sim) Run() {
 	}
 }
 
-// abort releases every parked task with a panic(abortSignal) so that the bubble can end.
+// abort ends the run. Parked goroutines are left parked: releasing them would make goroutines the
+// harness does not own (the background worker) unwind through deferred unlocks outside the
+// simulation. The bubble then ends with synctest's "blocked goroutines remain" panic, which the
+// caller recovers; the goroutines stay blocked for the rest of the process.
 func (s *Sim) abort() {
 	s.aborted = true
-	for i := 0; i < 1000; i++ {
-		s.mu.Lock()
-		p := s.pending
-		s.pending = nil
-		s.mu.Unlock()
-		if len(p) == 0 {
-			break
-		}
-		for _, r := range p {
-			close(r.ch)
-		}
-		s.wait()
-	}
 }
 
 // Aborted reports whether the run was aborted (deadlock / step limit).
